@@ -1142,7 +1142,11 @@ func funMin(nums ...*decimal.Big) (*decimal.Big, error) {
 }
 
 func funRound(v *decimal.Big) (*decimal.Big, error) {
-	return newDecimalBig().Round(0), nil
+	result := newDecimalBig().Copy(v)
+	result.Context.RoundingMode = decimal.ToNearestAway
+	result.RoundToInt()
+	result.Context.RoundingMode = decimal.Context128.RoundingMode
+	return result, nil
 }
 
 func funRoundBank(v *decimal.Big) (*decimal.Big, error) {
